@@ -31,6 +31,12 @@ ESpec == EInit /\ [][ENext]_evars
 \* what the real reader returned for every split of the description (R08/R03: the same properties judged on
 \* the sequence actually yielded by the library instead of on the projected files)
 RB == IF "readback" \in DOMAIN States[idx] THEN States[idx].readback ELSE <<>>
+\* what the library yields when the shards of one split are selected by their recorded label (R11: C11's "selecting
+\* shards by metadata returns all and only the examples written under that metadata"; a write without metadata joins
+\* the shard that is open, whatever its label, so such examples may accompany any label)
+RBSel == IF "rbsel" \in DOMAIN States[idx] THEN States[idx].rbsel ELSE <<>>
+WrittenUnder(s, m) == {wlog[i].id : i \in {j \in 1..Len(wlog) : /\ wlog[j].acc /\ wlog[j].split = s
+                                                                /\ wlog[j].sess \in done /\ wlog[j].md = m}}
 Want(name) == \E i \in 1..Len(States[idx].checks) : States[idx].checks[i] = name
 Verdict(name, holds) == (~Want(name)) \/ holds \/ PrintT(<<"PREDICATE-FALSE", name, idx>>)
 
@@ -46,6 +52,10 @@ EvalAll ==
     /\ Verdict("C06", C06_CrashSafeAt(files))
     /\ Verdict("R08", \A s \in DOMAIN RB : NoDupSeq(RB[s]) /\ SeqSet(RB[s]) = CommittedIds(s))
     /\ Verdict("R03", \A s \in DOMAIN RB : \A k \in done : IsSubSeq(SessionSeq(s, k), RB[s]))
+    /\ Verdict("R11", \A s \in DOMAIN RBSel : \A m \in DOMAIN RBSel[s] :
+                          /\ NoDupSeq(RBSel[s][m])
+                          /\ WrittenUnder(s, m) \subseteq SeqSet(RBSel[s][m])
+                          /\ SeqSet(RBSel[s][m]) \subseteq (WrittenUnder(s, m) \cup WrittenUnder(s, "None")))
     /\ Verdict("R06", \A s \in Splits : LET r == IF s \in DOMAIN RB THEN RB[s] ELSE <<>> IN
                           /\ NoDupSeq(r) /\ SeqSet(r) \subseteq AcceptedIds(s) /\ CommittedIds(s) \subseteq SeqSet(r))
     /\ PrintT(<<"EVALUATED", idx>>)
